@@ -57,8 +57,11 @@ Definition ego_logon : str := [101;103;111;46;108;111;103;111;110].       (* "eg
 Definition has_perm (u : user) (p : str) : bool := existsb (fun q => str_eqb (lower q) (lower p)) (uperms u).
 Definition permitted (u : user) : bool := has_perm u ego_root || has_perm u ego_logon.
 
-(* ValidatePassword: the verdict and the store afterwards (migration side effect) *)
-Definition validate (H : hashes) (plaintext : bool) (st : store) (u p : str) : bool * store :=
+(* ValidatePassword: the verdict and the store afterwards (migration side effect).
+   [lim]: a legacy credential is upgraded to bcrypt on a successful match when the password is shorter
+   than [lim] bytes.  The repaired code upgrades below 72 bytes (maxBcryptUpgradeLength); the code before
+   the repair upgraded whenever HashPassword succeeded, i.e. up to and including 72 bytes ([lim] = 73). *)
+Definition validate_with (lim : N) (H : hashes) (plaintext : bool) (st : store) (u p : str) : bool * store :=
   if is_empty u || is_empty p then (false, st) else
   match lookup (lower u) st with
   | None => (false, st)
@@ -69,11 +72,13 @@ Definition validate (H : hashes) (plaintext : bool) (st : store) (u p : str) : b
       else
         let real' := if braces real then sha H (inner real) else real in
         let ok := str_eqb real' (sha H p) in
-        let st' := if ok && (N.of_nat (length p) <=? 72)
+        let st' := if ok && (N.of_nat (length p) <? lim)
                    then write {| uname := uname usr; upass := bcrypt_gen H p; uperms := uperms usr |} st
                    else st in
         (ok && permitted usr, st')
   end.
+Definition validate := validate_with 72.
+Definition validate_old := validate_with 73.
 
 (* credential change as the admin handlers do it: ReadUser, replace the Password field, WriteUser
    (internal/server/admin/users/update.go, SetUser).  An unknown user is left alone. *)
